@@ -247,3 +247,66 @@ def block_paths(t, limit=256):
 
     go(stmts_of(t), 0, [], [])
     return out
+
+
+# ----------------------------------------------------------------------
+def occurrences_with_guards(t, lits=None):
+    """Yield (subterm, literals) for every sub-term together with the branch literals under which it is
+    evaluated (if-conditions, match arm patterns/guards, short-circuit && / ||).  Literals: (term, bool)
+    or (("matches", scrut, pat), True)."""
+    lits = lits or []
+    if not isinstance(t, tuple) or not t:
+        return
+    if not isinstance(t[0], str):
+        for x in t:
+            if isinstance(x, tuple):
+                yield from occurrences_with_guards(x, lits)
+        return
+    yield t, lits
+    k = t[0]
+    if k == "if":
+        yield from occurrences_with_guards(t[1], lits)
+        for want, br in ((True, t[2]), (False, t[3])):
+            if br is None:
+                continue
+            for case in cond_cases(t[1], want):
+                yield from occurrences_with_guards(br, lits + case)
+    elif k == "match":
+        yield from occurrences_with_guards(t[1], lits)
+        for p, g, b in t[2]:
+            l2 = lits + [(("matches", t[1], p), True)]
+            if g is not None:
+                yield from occurrences_with_guards(g, l2)
+                for case in cond_cases(g, True):
+                    yield from occurrences_with_guards(b, l2 + case)
+            else:
+                yield from occurrences_with_guards(b, l2)
+    elif k == "binop" and t[1] in ("And", "Or"):
+        yield from occurrences_with_guards(t[2], lits)
+        for case in cond_cases(t[2], t[1] == "And"):
+            yield from occurrences_with_guards(t[3], lits + case)
+    elif k == "seq":
+        # an `if c { return / panic }` statement guards the rest of the block with !c
+        cur = list(lits)
+        for s in t[1]:
+            body = s[2] if s[0] == "let" else s[1]
+            yield from occurrences_with_guards(body, cur)
+            if s[0] == "semi" and isinstance(body, tuple) and body and body[0] == "if" and body[3] is None or (s[0] == "semi" and isinstance(body, tuple) and body and body[0] == "if" and _empty(body[3]) if isinstance(body, tuple) and len(body) > 3 and body[3] is not None else False):
+                if _diverges(body[2]):
+                    cases = cond_cases(body[1], False)
+                    if len(cases) == 1:
+                        cur = cur + cases[0]
+        yield from occurrences_with_guards(t[2], cur)
+    else:
+        for x in t[1:]:
+            if isinstance(x, tuple):
+                yield from occurrences_with_guards(x, lits)
+
+
+def _diverges(t):
+    for s in sym.subterms(t):
+        if s[0] in ("ret", "break", "continue"):
+            return True
+        if s[0] == "call" and ("panic" in s[1] or "unreachable" in s[1]):
+            return True
+    return False
